@@ -22,11 +22,11 @@ import (
 
 // fault kinds for one carrier write
 const (
-	fNone       = iota
-	fCutBefore  // the carrier dies before any byte of this write is delivered
-	fCutInside  // half of the bytes are delivered, then the carrier dies
-	fCutAfter   // all bytes are delivered, then the carrier dies
-	fFreeze     // from this write on the carrier delivers nothing and reports no error
+	fNone      = iota
+	fCutBefore // the carrier dies before any byte of this write is delivered
+	fCutInside // half of the bytes are delivered, then the carrier dies
+	fCutAfter  // all bytes are delivered, then the carrier dies
+	fFreeze    // from this write on the carrier delivers nothing and reports no error
 	nFaultKinds
 )
 
@@ -171,20 +171,20 @@ func (s c01ServerConn) Close() error {
 }
 
 type c01World struct {
-	id        turbotunnel.ClientID
-	pconn     *turbotunnel.QueuePacketConn
-	redial    *turbotunnel.RedialPacketConn
-	faults    []faultSpec
-	nUp       int
-	nDown     int
-	carriers  []*c01Carrier
-	standby   int           // carriers available in total
-	dialDelay time.Duration // delay before a replacement carrier is available
-	dialCalls int
-	nPayloads int
-	closing   bool
-	released  chan struct{}
-	lastFault time.Duration
+	id           turbotunnel.ClientID
+	pconn        *turbotunnel.QueuePacketConn
+	redial       *turbotunnel.RedialPacketConn
+	faults       []faultSpec
+	nUp          int
+	nDown        int
+	carriers     []*c01Carrier
+	standby      int           // carriers available in total
+	dialDelay    time.Duration // delay before a replacement carrier is available
+	dialCalls    int
+	nPayloads    int
+	closing      bool
+	released     chan struct{}
+	lastFault    time.Duration
 	dialFailedAt time.Duration
 
 	// ARQ state
@@ -229,8 +229,10 @@ func (w *c01World) startStaleTimer(c *c01Carrier) {
 // collector melts, as Peers.Pop does.
 type c01Collector struct{ w *c01World }
 
-func (c c01Collector) Collect() (*snowflake_client.WebRTCPeer, error) { return nil, errors.New("unused") }
-func (c c01Collector) Melted() <-chan struct{}                        { return c.w.released }
+func (c c01Collector) Collect() (*snowflake_client.WebRTCPeer, error) {
+	return nil, errors.New("unused")
+}
+func (c c01Collector) Melted() <-chan struct{} { return c.w.released }
 
 func (c c01Collector) Pop() *snowflake_client.WebRTCPeer {
 	w := c.w
@@ -268,9 +270,9 @@ func (e clientEnd) Send(b []byte) error {
 
 type nopPipeWriter struct{}
 
-func (nopPipeWriter) Write(p []byte) (int, error)   { return len(p), nil }
-func (nopPipeWriter) Close() error                  { return nil }
-func (nopPipeWriter) CloseWithError(error) error    { return nil }
+func (nopPipeWriter) Write(p []byte) (int, error) { return len(p), nil }
+func (nopPipeWriter) Close() error                { return nil }
+func (nopPipeWriter) CloseWithError(error) error  { return nil }
 
 // captureDialContext runs the real newSession up to the point where the dialContext closure exists.
 func (w *c01World) captureDialContext() (func(context.Context) (net.PacketConn, error), turbotunnel.ClientID) {
